@@ -86,105 +86,22 @@ def first_job(N, m):
     ex = agp.exact_explorer('FIRST N=%d m=%d' % (N, m))
     ex.explore(h, sample_every=1)
     return agp.summary(ex, 'first iteration N=%d m=%d' % (N, m), {'N': N, 'm': m},
-                       {'level': 'prefix', 'N': N, 'r': 2.5, 'seed': 0, 'kpre': 0, 'script': [('iter', 1)], 'density': m, 'nsym': 1})
+                       {'level': 'scenario', 'N': N, 'cfg': {'N': N, 'r': 2.5, 'seed': 0, 'kpre': 0, 'script': [('iter', 1)], 'density': m,
+                                                             'nsym': 1, 'overrides': ['before', 'iter', 'stop']}})
 
 
 # ---------------------------------------------------------------------------------------------- L3
-def prefix_job(N, r, seed, kpre, S, want=WANT, density=None, zrange=1000):
-    st = agp.setup()
-    mods = st['mods']
-    agp.use_queue_stub(True)
-    script = [('iter', kpre + S + 1)]
-
-    def h(ex):
-        obj = agp.PrefixObjective(ex, seed, N, kpre, zrange=zrange)
-        rr = agp.exact_const(r)      # every operation on r is exact, in the code and in the reference alike
-        s, prob = agp.new_solver(ex, N, obj, rr, 1e-9, 10 ** 6, density=density)
-        L = an.listener_class(mods)()
-        s.AddListener(L)
-        an.run_script(mods, s, script)
-        lower, upper = agp.BOXES[N]
-        Ev = mods.evolvent.Evolvent
-
-        def fresh_image(x):
-            return list(Ev(lower, upper, N, s.evolvent.evolventDensity).GetImage(x))
-        cl = an.run_clauses(mods, s, prob, L, want, rr, N, fresh_image=fresh_image if N == 1 else None)
-        ex.tag('prefix-run')
-        tr = an.trials_of(L)
-        if any(isinstance(t[0], Sym) and t[0].const() is None for t in tr):
-            ex.tag('trial-location-depends-on-symbolic-values')
-        agp.prove_all(ex, cl)
-        return [str(t[0])[:14] for t in tr]
-    ex = agp.exact_explorer('PREFIX N=%d r=%s seed=%d k=%d S=%d' % (N, r, seed, kpre, S))
-    ex.explore(h, sample_every=17)
-    return agp.summary(ex, 'reachable prefix: N=%d r=%s f#%d, %d concrete + %d symbolic values' % (N, r, seed, kpre, S + 1),
-                       {'N': N, 'r': r, 'prefix_function': seed, 'concrete_trials': kpre, 'symbolic_values': S + 1},
-                       {'level': 'prefix', 'N': N, 'r': r, 'seed': seed, 'kpre': kpre, 'script': script, 'density': density,
-                        'nsym': S + 2})
-
-
-# ---------------------------------------------------------------------------------------------- main
-def replay_args(c, want):
-    d = dict(c['detail'])
-    a = {'want': list(want), 'model': c['model'], 'N': d.get('N', 1)}
-    a.update({k: v for k, v in d.items() if k not in ('path', 'kind', 'exception')})
-    return a
-
-
-def confirm(run, want, kinds_needing_e2e=('I',)):
-    """Replays every distinct candidate natively; 'P' clauses and run-level clauses count when they reproduce."""
-    groups = {}
-    for r, c in run.candidates():
-        d = c.get('detail', {})
-        key = (d.get('level'), c['label'].split(':')[0], d.get('N'), d.get('which'))
-        groups.setdefault(key, []).append(c)
-    lemma_only = []
-    for key, cs in sorted(groups.items(), key=lambda kv: str(kv[0])):
-        level, head = key[0], key[1]
-        kind = cs[0].get('detail', {}).get('kind')
-        if level == 'step' and kind in kinds_needing_e2e:
-            lemma_only.append((head, cs[0]))
-            continue
-        ok_any = False
-        last = ''
-        for c in cs[:4]:
-            a = replay_args(c, want)
-            rp = run.write_replay(head.replace(' ', '_')[:30], an.REPLAY_TEMPLATE % {'verif': report.VERIF, 'args': a})
-            ok, out = run.run_replay(rp)
-            last = (out or '').strip()[-400:]
-            if ok:
-                ok_any = True
-                run.confirmed('%s:%s:%s' % (run.pid, level, head), '%s [%s level, N=%s]: %s' % (c['label'], level, key[2], last), rp)
-                break
-        if not ok_any:
-            run.unconfirmed('%s (%s level)' % (cs[0]['label'], level), last)
-    if lemma_only:
-        if run.violations:
-            run.extra['lemma_failures_explained_by_confirmed_violations'] = [h for h, _ in lemma_only]
-        else:
-            for h, c in lemma_only:
-                run.unconfirmed('%s (invariant-preservation lemma of the step check; no end-to-end witness found)' % c['label'],
-                                'model: %s' % c['model'])
-    if run.violations:
-        run.cex_unconfirmed = []
-
-
-def step_jobs(run, want, plan):
-    jobs = []
-    for (N, k) in plan:
-        for recalc in (False, True):
-            for best in range(k):
-                jobs.append((agp.step_job, (N, k, want, False, 30000, recalc, True, best)))
-    return jobs
+def prefix_job(N, r, seed, kpre, S, want=WANT, real_queue=False):
+    cfg = {'N': N, 'r': r, 'seed': seed, 'kpre': kpre, 'nsym': S + 2, 'script': [('iter', kpre + S + 1)], 'overrides': ['before', 'iter', 'stop'],
+           'real_queue': real_queue, 'sibling': 'other'}
+    return agp.scenario_job(cfg, want, label='reachable prefix: N=%d r=%s f#%d, %d concrete + %d symbolic values%s'
+                            % (N, r, seed, kpre, S + 1, ' (real DEPQ)' if real_queue else ''))
 
 
 def main():
     run = report.Runner(PID, design_ref='5/C02')
     agp.describe(run)
-    run.stub('Evolvent.GetImage for N >= 2 in the step checks -> arbitrary map into the open box (EvolventStub); real evolvent for N = 1 '
-             'and in the prefix runs')
-    run.stub('depq.DEPQ in the step checks and prefix runs -> QueueStub (unbounded max-priority queue, earliest-inserted among equals); '
-             'the real DEPQ is executed in the "+real DEPQ" step jobs and in C19')
+    agp.describe_stubs(run)
     quick = run.quick
     jobs = []
     # K1
@@ -198,7 +115,7 @@ def main():
         jobs.append((first_job, (N, m)))
     # L2
     plan = [(1, 1), (1, 2), (2, 2)] if quick else [(1, 1), (1, 2), (2, 2), (3, 2), (1, 3), (2, 3)]
-    jobs += step_jobs(run, WANT, plan)
+    jobs += agp.step_jobs(WANT, plan)
     # L3
     seeds = [(run.seed * 7 + i) % 50 for i in range(4 if quick else 10)] + [3, 4]
     rs = (2.5, 1.3) if quick else (2.5, 1.3, 3.7, 1.05)
@@ -206,9 +123,11 @@ def main():
         for r in rs:
             for kpre in ((2, 3, 4) if quick else (2, 3, 4, 5, 6)):
                 jobs.append((prefix_job, (1, r, sd, kpre, 1)))
+    jobs.append((prefix_job, (1, 2.5, seeds[0], 2, 1, WANT, True)))      # the real DEPQ end to end
     if not quick:
         for sd in seeds[:3]:
             jobs.append((prefix_job, (1, 2.5, sd, 3, 2)))
+            jobs.append((prefix_job, (1, 1.3, sd, 3, 1, WANT, True)))
     run.bound(kernels='all real inputs with 0 <= xl < xr <= 1, M >= 1, r > 1; N = 1..%d' % (3 if quick else 5),
               step='%s (N, evaluated trials); symbolic coordinates, values, M >= 1 dominating the slopes, r > 1, recalc in {pending, not}' % plan,
               prefix_runs='N = 1, r in %s, %d prefix functions, 2..7 concrete trials followed by 2 (thorough: up to 3) arbitrary values in [-1000, 1000]'
@@ -216,14 +135,13 @@ def main():
     run.not_covered('floats (real arithmetic); partitions with more than 3 evaluated trials in the symbolic pre-state; N >= 2 in the prefix runs '
                     '(N enters the method only through the Hoelder length and the N-th power, covered by K1 for N <= 5 and by the step '
                     'checks for N <= 3); a bounded characteristics queue (Solver never sets maxlen)')
-    run.assume('floats are modelled as reals; concrete prefix values are lifted exactly')
     res = run.parallel(jobs)
-    confirm(run, WANT)
+    agp.confirm(run, WANT)
     run.finish('every trial subdivides an interval of maximal characteristic at the point given by the decision rule, strictly inside it; '
                'first trial at the image of 0.5; no coordinate twice',
                vacuity=['kernel-R-interior', 'kernel-X-interior', 'first-iteration', 'recalc-pending', 'recalc-not-pending',
                         'interior-interval', 'left-boundary-interval', 'right-boundary-interval', 'new-optimum', 'optimum-kept',
-                        'prefix-run', 'trial-location-depends-on-symbolic-values'])
+                        'scenario', 'trial-location-depends-on-symbolic-values'])
 
 
 if __name__ == '__main__':
